@@ -20,7 +20,7 @@ func init() {
 	register(&propDef{
 		ID: "C09",
 		Meta: propMeta{
-			Explanation: "Decides structural necessary conditions (nothing is executed): (R09a) in every function reachable from a Transformer.GetReader implementation, each sequential read of the source file (the file handed to a callee as an io.Reader, returned as the upload stream, or read directly) is preceded on every path — since function entry, since the previous sequential read and since any seek-to-end — by a Seek with whence 0 on that same file, so that the stream is the same on every call; implementations that only use ReadAt need nothing; (R09b) remotecmd.doRequest builds a fresh request (and through buildRequest obtains a fresh body from GetReader) inside the failover loop and sends exactly that request; the 406 fallback and every retry go through the same construction; (R09c) codec tables agree: the encodings setupCompression can produce are exactly those decompress can read, every preference key is among them, and the advertised Accept-Encoding list is exactly the preference keys; (R09d) header and body agree: wherever a Content-Encoding header is set, the value is the very value handed to the compressor for that body; (R09e) each zip-based server-side signer reads its input once, through zipslicer.ReadZipTar on the request stream.",
+			Explanation: "Decides structural necessary conditions (nothing is executed): (R09a) in every function reachable from a Transformer.GetReader implementation, each sequential read of the source file (the file handed to a callee as an io.Reader, returned as the upload stream, or read directly) is preceded on every path — since function entry, since the previous sequential read and since any seek-to-end — by a Seek with whence 0 on that same file, so that the stream is the same on every call; implementations that only use ReadAt need nothing; (R09b) remotecmd.doRequest builds a fresh request (and through buildRequest obtains a fresh body from GetReader) inside the failover loop and sends exactly that request; the 406 fallback and every retry go through the same construction; (R09c) codec tables agree: the encodings setupCompression can produce are exactly those decompress can read, every preference key is among them, and the advertised Accept-Encoding list is exactly the preference keys; (R09d) header and body agree: wherever a Content-Encoding header is set, the value is the very value handed to the compressor for that body; (R09e) each zip-based server-side signer reads its input once, through zipslicer.ReadZipTar on the request stream; (R09f) where a transformer slurps a non-seekable source through io.LimitReader with a constant cap, a length test that the capped result can satisfy follows (no silent truncation of what is uploaded); (R09g) the reader wrapped by compresshttp.readBlocker is touched only by its Read method behind the closed-flag test and by Close, so an abandoned attempt's compressor cannot keep reading the shared source.",
 			NotDecided:  "independence of the block hashers (APK merkle, appx block map, PE page hashes) from Write sizes; equality of the digest computed from the tar stream and from the patched file; correctness of gzip/snappy; that a second GetReader call does not race with a still-running producer goroutine of the first.",
 			Assumptions: []string{"os.File.Seek(0, io.SeekStart) repositions reliably", "net/http sends the body it is given once"},
 		},
@@ -34,11 +34,15 @@ func runC09(c *Ctx) {
 	c.Rule("R09c", "compression codec tables agree between encoder, decoder, preferences and advertisement", 5)
 	c.Rule("R09d", "the Content-Encoding header names the encoding actually applied to the body", 3)
 	c.Rule("R09e", "zip-based server-side signers read the upload once through ReadZipTar", 4)
+	c.Rule("R09f", "a capped slurp of the source on the upload path detects the cap being hit", 1)
+	c.Rule("R09g", "compresshttp.readBlocker's closed flag guards every access to the wrapped reader", 3)
 	c09Rewind(c)
 	c09PerAttempt(c)
 	c09Codecs(c)
 	c09HeaderBody(c)
 	c09SingleRead(c)
+	c09CappedReads(c)
+	c09ReadBlocker(c)
 }
 
 var ioReader *types.Interface
@@ -514,5 +518,181 @@ func c09SingleRead(c *Ctx) {
 	}
 	if n < 4 {
 		c.Undecided("R09e", "ReadZipTar callers", "-", fmt.Sprintf("only %d found (4 confirmed by reading)", n))
+	}
+}
+
+// ------------------------------------------------------------------------------ R09f / R09g
+
+// c09CappedReads: on the upload path (transformer constructors and GetReader implementations
+// and what they reach) a capped slurp of the source — ReadAll(LimitReader(src, N)) — must be
+// followed by a test of the result's length that can actually detect the cap being hit.
+func c09CappedReads(c *Ctx) {
+	p := c.P
+	var roots []*ssa.Function
+	for f := range p.registeredSignerFuncs("Transform") {
+		roots = append(roots, f)
+	}
+	if iface := p.ifaceNamed("signers", "Transformer"); iface != nil {
+		for _, t := range p.implementersOf(iface) {
+			if f := p.methodOf(t, "GetReader"); f != nil {
+				roots = append(roots, f)
+			}
+		}
+	}
+	n := 0
+	for fn := range p.moduleReachOpt(roots, false) {
+		for _, ci := range p.callsIn(fn, "io.ReadAll", "io/ioutil.ReadAll") {
+			lr, ok := stripConv(ci.Common().Args[0]).(*ssa.Call)
+			if !ok || p.calleeName(lr.Common()) != "io.LimitReader" {
+				continue
+			}
+			limit, isK := constInt(lr.Common().Args[1])
+			n++
+			key := fmt.Sprintf("%s capped-read#%d", p.FName(fn), n)
+			c.Analysed(p.FName(fn))
+			if !isK {
+				c.PassTrivial("R09f", key, p.Pos(ci.Pos()), "limit is not a constant (a sized region, not a cap)")
+				continue
+			}
+			// comparisons of len(result) with a constant
+			var res ssa.Value
+			for _, r := range *ci.Value().Referrers() {
+				if ex, ok := r.(*ssa.Extract); ok && ex.Index == 0 {
+					res = ex
+				}
+			}
+			detect := false
+			seenCmp := ""
+			if res != nil {
+				for _, r := range *res.Referrers() {
+					call, ok := r.(*ssa.Call)
+					if !ok {
+						continue
+					}
+					bi, ok := call.Call.Value.(*ssa.Builtin)
+					if !ok || bi.Name() != "len" {
+						continue
+					}
+					for _, rr := range *call.Referrers() {
+						bo, ok := rr.(*ssa.BinOp)
+						if !ok {
+							continue
+						}
+						k, isK := constInt(bo.Y)
+						op := bo.Op
+						if !isK {
+							if k2, ok2 := constInt(bo.X); ok2 {
+								k, isK = k2, true
+								switch op {
+								case token.LSS:
+									op = token.GTR
+								case token.GTR:
+									op = token.LSS
+								case token.LEQ:
+									op = token.GEQ
+								case token.GEQ:
+									op = token.LEQ
+								}
+							}
+						}
+						if !isK {
+							continue
+						}
+						seenCmp = fmt.Sprintf("len %s %d", op, k)
+						switch op {
+						case token.EQL, token.GEQ:
+							if k <= limit && k > 0 {
+								detect = true
+							}
+						case token.GTR:
+							if k < limit {
+								detect = true
+							}
+						}
+					}
+				}
+			}
+			c.Check(detect, "R09f", key, p.Pos(ci.Pos()), fmt.Sprintf("limit %d, test %s", limit, seenCmp),
+				fmt.Sprintf("the source is slurped through io.LimitReader(…, %d) and the only length test is %q, which a result of at most %d bytes can never satisfy: an input larger than the cap is silently truncated and the truncated stream is what gets uploaded and signed", limit, seenCmp, limit))
+		}
+	}
+	if n < 1 {
+		c.Undecided("R09f", "capped reads on the upload path", "-", "none found (1 confirmed by reading: signers/pgp.transform)")
+	}
+}
+
+// c09ReadBlocker: the closed flag of compresshttp.readBlocker guards every access to the reader
+// it wraps: only Read (behind the flag test) and Close (type assertion to io.Closer) touch it.
+func c09ReadBlocker(c *Ctx) {
+	p := c.P
+	n := 0
+	for _, fn := range p.pkgFuncs("lib/compresshttp") {
+		k := 0
+		for _, b := range fn.Blocks {
+			for _, in := range b.Instrs {
+				var addr ssa.Value
+				switch x := in.(type) {
+				case *ssa.UnOp:
+					if x.Op == token.MUL {
+						addr = x.X
+					}
+				case *ssa.Store:
+					addr = x.Addr
+				}
+				if addr == nil {
+					continue
+				}
+				tn, f, _ := p.fieldAddr(addr)
+				if tn != "lib/compresshttp.readBlocker" || f != "Reader" {
+					continue
+				}
+				n++
+				k++
+				key := fmt.Sprintf("%s uses readBlocker.Reader#%d", p.FName(fn), k)
+				c.Analysed(p.FName(fn))
+				if _, isStore := in.(*ssa.Store); isStore {
+					c.Pass("R09g", key, p.Pos(in.Pos()), "construction")
+					continue
+				}
+				load := in.(*ssa.UnOp)
+				ok := true
+				why := ""
+				for _, r := range *load.Referrers() {
+					switch y := r.(type) {
+					case *ssa.DebugRef:
+					case *ssa.TypeAssert:
+						if !strings.HasSuffix(y.AssertedType.String(), "io.Closer") {
+							ok, why = false, "asserted to "+y.AssertedType.String()
+						}
+					case ssa.CallInstruction:
+						if y.Common().IsInvoke() && y.Common().Method.Name() == "Read" && y.Common().Value == ssa.Value(load) && fn.Name() == "Read" {
+							// behind the flag test
+							g := Guard{Name: "closed == 0", Match: func(f Fact) bool {
+								bo, ok := f.V.(*ssa.BinOp)
+								if !ok {
+									return false
+								}
+								call, _ := resultOf(bo.X)
+								if call == nil || !strings.HasPrefix(p.calleeName(call.Common()), "sync/atomic.Load") {
+									return false
+								}
+								return (bo.Op == token.NEQ && f.Kind == IsFalse) || (bo.Op == token.EQL && f.Kind == IsTrue)
+							}}
+							if missing, _ := p.unguardedFromEntry(fn, y, g); len(missing) > 0 {
+								ok, why = false, "Read without the closed-flag test"
+							}
+						} else {
+							ok, why = false, "handed to "+p.describeCall(y)
+						}
+					default:
+						ok, why = false, fmt.Sprintf("used by %T", r)
+					}
+				}
+				c.Check(ok, "R09g", key, p.Pos(in.Pos()), "guarded Read / Close only", "the reader wrapped by readBlocker is reached on a path that does not test the closed flag for every read ("+why+"): after a failed attempt the abandoned compressor goroutine keeps reading the shared source file while the next attempt has rewound it, and the next server receives a stream with a hole in it")
+			}
+		}
+	}
+	if n < 3 {
+		c.Undecided("R09g", "readBlocker.Reader accesses", "-", fmt.Sprintf("only %d found (3 confirmed by reading: construction, Read, Close)", n))
 	}
 }
